@@ -487,3 +487,5 @@ func seedFromEnv() int {
 	fmt.Sscanf(os.Getenv("VERIF_SEED"), "%d", &s)
 	return s
 }
+
+func (c *Ctx) posOf(p token.Pos) string { return c.rel(p) }
